@@ -81,7 +81,8 @@ def branchMid : Bytes := [0xE2, 0x94, 0x9C, 0xE2, 0x94, 0x80, 0xE2, 0x94, 0x80, 
 def pipePad : Bytes := [0xE2, 0x94, 0x82, 0x20, 0x20, 0x20]                              -- "│   "
 def blankPad : Bytes := [0x20, 0x20, 0x20, 0x20]
 
-/-- `display_tree`; `fuel` bounds the recursion depth (the Rust function recurses once per level). -/
+/-- `display_tree`; `fuel` bounds the depth of the walk (one level per `/` of an entry name; the Rust function
+    keeps an explicit stack since the `fix:` that removed the recursion). -/
 def displayTree (t : List (Bytes × List (Bytes × Nat))) (classify : Bool) : Nat → Bytes → Bytes → Bytes
   | 0, _, _ => []
   | fuel+1, root, pre =>
@@ -94,7 +95,8 @@ def displayTree (t : List (Bytes × List (Bytes × Nat))) (classify : Bool) : Na
         let line := pre ++ (if isLast then branchLast else branchMid) ++ child ++ suffix ++ [nl]
         let newRoot := if root = [] then child else root ++ [slash] ++ child
         let newPre := pre ++ (if isLast then blankPad else pipePad)
-        line ++ displayTree t classify fuel newRoot newPre
+        -- after the `fix:`: an empty name has no subtree of its own (its key would be its parent's key)
+        if child = [] then line else line ++ displayTree t classify fuel newRoot newPre
 
 /-- `tree_entries` -/
 def treeOut (classify : Bool) (rows : List Row) : Bytes :=
